@@ -86,6 +86,7 @@ var extraRules = map[string][]func(*core.Ctx, *core.Ledger){
 		func(c *core.Ctx, l *core.Ledger) {
 			checkUnsafeLen(c, l, "UNSAFE-LEN", []string{"wire", "protocol/binary"})
 		},
+		func(c *core.Ctx, l *core.Ledger) { checkConstAccept(c, l, "CONST-ACCEPT") },
 	},
 	"C02": {
 		func(c *core.Ctx, l *core.Ledger) {
@@ -113,6 +114,7 @@ var extraRules = map[string][]func(*core.Ctx, *core.Ledger){
 	},
 	"C06": {
 		func(c *core.Ctx, l *core.Ledger) { checkImportName(c, l, "IMPORT-NAME") },
+		func(c *core.Ctx, l *core.Ledger) { checkConstAccept(c, l, "CONST-ACCEPT") },
 	},
 	"C07": {
 		func(c *core.Ctx, l *core.Ledger) { checkLookupExact(c, l, "LOOKUP-EXACT") },
